@@ -281,6 +281,64 @@ def lca_item(item):
     return out
 
 
+def big_tree_item(item):
+    """Sizes far beyond the exhaustive bound (seeded): a comb of depth 700 (default recursion limit 1000) and a random tree with 40 000 nodes
+    (Euler tour of ~80 000 entries), sampled queries against parent chains."""
+    import sys
+    rng = random.Random(item["seed"])
+    out = dict(obligations=0, discharged=0, violations=[], paths=1, nontrivial=True, item=item)
+    n = item["n"]
+    if item["shape"] == "comb":
+        parent = [None] + [i - 1 if i % 2 else i - 2 for i in range(1, n)]      # a spine with one leaf hanging off every spine node
+        parent = [None] + [max(0, (i - 1) // 2 * 2) if i % 2 == 0 else ((i - 1) // 2 * 2) for i in range(1, n)]
+    else:
+        parent = [None] + [rng.randrange(max(0, i - 50), i) if rng.random() < 0.5 else rng.randrange(i) for i in range(1, n)]
+    nodes = [Tree() for _ in range(n)]
+    for i, nd in enumerate(nodes):
+        nd.name = f"n{i}"
+    for i in range(1, n):
+        nodes[parent[i]].add_child(nodes[i])
+    depth = [0] * n
+    for i in range(1, n):
+        depth[i] = depth[parent[i]] + 1
+    try:
+        L = LowestCommonAncestor(nodes[0])
+    except Exception as e:
+        out["obligations"] = 1
+        out["violations"].append({"kind": "lca-big", "text": f"building the structure on a {item['shape']} tree with {n} nodes (depth {max(depth)}) raises {type(e).__name__}",
+                                  "signature": {"kind": "lca-big", "shape": item["shape"], "n": n}, "data": {"what": "lca-big", "item": item}, "confirmed": True})
+        return out
+
+    def olca(a, b):
+        while a != b:
+            if depth[a] < depth[b]:
+                a, b = b, a
+            a = parent[a]
+        return a
+
+    fails = []
+    for _ in range(item["queries"]):
+        a, b = rng.randrange(n), rng.randrange(n)
+        if rng.random() < 0.5:
+            a, b = max(a, n - 1 - rng.randrange(min(n, 2000))), b       # favour late tour positions
+        l = olca(a, b)
+        out["obligations"] += 3
+        got = L(nodes[a], nodes[b])
+        if got is not nodes[l]:
+            fails.append(f"lca({a},{b}) = {got.name} != n{l}")
+        if L.distance(nodes[a], nodes[b]) != depth[a] + depth[b] - 2 * depth[l]:
+            fails.append(f"distance({a},{b})")
+        if L.is_ancestor_of(nodes[a], nodes[b]) != (l == a):
+            fails.append(f"is_ancestor_of({a},{b})")
+        if len(fails) > 3:
+            break
+    out["discharged"] = out["obligations"] - len(fails)
+    if fails:
+        out["violations"].append({"kind": "lca-big", "text": f"{item['shape']} tree with {n} nodes: {fails[:4]}",
+                                  "signature": {"kind": "lca-big", "shape": item["shape"], "n": n}, "data": {"what": "lca-big", "item": item}, "confirmed": True})
+    return out
+
+
 def random_shape(rng, n):
     parent = [None] + [rng.randrange(i) for i in range(1, n)]
     ch = [[] for _ in range(n)]
@@ -298,6 +356,8 @@ def worker(item):
         return rmq_item(item)
     if item["kind"] == "ilog2":
         return ilog2_item(item)
+    if item["kind"] == "lca-big":
+        return big_tree_item(item)
     return lca_item(item)
 
 
@@ -307,6 +367,8 @@ def replay(data):
     elif data["what"] == "ilog2":
         r = RMQ._ilog2(data["value"])
         cf = [] if (1 << r) <= data["value"] < (1 << (r + 1)) else [f"_ilog2({data['value']}) = {r}"]
+    elif data["what"] == "lca-big":
+        cf = [v["text"] for v in big_tree_item(data["item"])["violations"]]
     else:
         cf, _ = lca_shape_fails(data["shape"], names=data.get("names", "unique"), history=data.get("history"))
     for t in cf[:5]:
@@ -336,6 +398,9 @@ def main(argv=None):
             "names": ["unique", rng.choice(NAME_MODES[1:])], "histories": ["subtrees-first", "rebuilt-after-prune", "regrafted-in-place"]} for _ in range(nrand)]
     res, sk = R.run_sharded(worker, rnd, 3000)
     rep.add_results("ancestry (seeded larger trees, sampled triples)", res, sk, exhaustive=False)
+    bigs = [{"kind": "lca-big", "shape": "comb", "n": 1401, "queries": 400, "seed": seed}, {"kind": "lca-big", "shape": "random", "n": 40000, "queries": 3000, "seed": seed + 1}]
+    res, sk = R.run_sharded(worker, bigs, 3000)
+    rep.add_results("ancestry on large trees (seeded: comb of depth 700, random tree with 40 000 nodes; sampled queries)", res, sk, exhaustive=False)
     import superrec2.utils.trees as T
     rep.functions = R.safe_digest(lambda: R.source_digest(RMQ.RangeMinQuery.__init__, RMQ.RangeMinQuery.__call__, RMQ._ilog2, T._euler_tour,
                                     T.LowestCommonAncestor.__init__, T.LowestCommonAncestor.__call__, T.LowestCommonAncestor.is_ancestor_of,
